@@ -12,7 +12,7 @@ import (
 func init() {
 	register(&propDef{
 		ID:          "C11",
-		Explanation: "Decides, for templ.ComponentHandler (go/cfg dominance and reachability, object identity through go/types): R1 the buffered path renders into the pooled byte buffer, never into the ResponseWriter; R2 every effect on the ResponseWriter (Header, WriteHeader, Write, http.Error, delegation to the error handler) is dominated by the Render call; R3 the effects inside the `err != nil` branch are the only ones reachable when rendering failed — that branch returns on every path and no success effect is reachable from an error effect; R4 the success body is Bytes() of that same buffer, written exactly once, after the status; R5 ServeHTTP takes the buffered path unless StreamResponse is set; the pooled buffer is released only by a defer (no use after release). R6 no function of templ or templ/runtime uses the memory of a pooled buffer after the buffer went back to the pool (a slice from Bytes() returned past a deferred release, or used after a direct release): the response body would be overwritten by another request's render. R7 (= C10.R6) every object that goes into the buffer pools is reset or freshly empty, so a response never starts with bytes of an earlier (failed) render. R8 the ErrorHandler field is assigned the option's parameter itself (or a wrapper whose every return calls it). R9 inside package templ the StreamResponse flag is written only by an option dedicated to it: unconditionally, in a function that sets no other handler field, and no constructor presets it. NOT decided: what a configured error handler itself writes. R3 also: the error side of the buffered handler writes no body to the ResponseWriter itself (helpers followed). R10/R11 no error result of packages templ / runtime is dropped or detected and then not returned. R3 also: every error path of the buffered handler reaches http.Error or the error handler (helpers that are handed w are enumerated), and the WriteHeader of the configured status depends on nothing but `Status != 0`. R12 a buffer created for output starts empty (bytes.NewBuffer(make([]byte, n)) starts with n zero bytes). R3 also: the status handed to http.Error does not come from the handler's Status field (directly or through a method that reads it), and a call through a func-typed exported field of the handler stands behind a test that the field is set (the constructor's default does not cover literals or options storing nil). R13 a deferred function literal assigns a named error result only where it is still nil, or joins it (a flush in a defer must not replace the body's error).",
+		Explanation: "Decides, for templ.ComponentHandler (go/cfg dominance and reachability, object identity through go/types): R1 the buffered path renders into the pooled byte buffer, never into the ResponseWriter; R2 every effect on the ResponseWriter (Header, WriteHeader, Write, http.Error, delegation to the error handler) is dominated by the Render call; R3 the effects inside the `err != nil` branch are the only ones reachable when rendering failed — that branch returns on every path and no success effect is reachable from an error effect; R4 the success body is Bytes() of that same buffer, written exactly once, after the status; R5 ServeHTTP takes the buffered path unless StreamResponse is set; the pooled buffer is released only by a defer (no use after release). R6 no function of templ or templ/runtime uses the memory of a pooled buffer after the buffer went back to the pool (a slice from Bytes() returned past a deferred release, or used after a direct release): the response body would be overwritten by another request's render. R7 (= C10.R6) every object that goes into the buffer pools is reset or freshly empty, so a response never starts with bytes of an earlier (failed) render. R8 the ErrorHandler field is assigned the option's parameter itself (or a wrapper whose every return calls it). R9 inside package templ the StreamResponse flag is written only by an option dedicated to it: unconditionally, in a function that sets no other handler field, and no constructor presets it. NOT decided: what a configured error handler itself writes. R3 also: the error side of the buffered handler writes no body to the ResponseWriter itself (helpers followed). R10/R11 no error result of packages templ / runtime is dropped or detected and then not returned. R3 also: every error path of the buffered handler reaches http.Error or the error handler (helpers that are handed w are enumerated), and the WriteHeader of the configured status depends on nothing but `Status != 0`. R12 a buffer created for output starts empty (bytes.NewBuffer(make([]byte, n)) starts with n zero bytes). R3 also: the status handed to http.Error does not come from the handler's Status field (directly or through a method that reads it), and a call through a func-typed exported field of the handler stands behind a test that the field is set (the constructor's default does not cover literals or options storing nil). R13 a deferred function literal assigns a named error result only where it is still nil, or joins it (a flush in a defer must not replace the body's error). R11 also (round 11): a path that obtained an error from a call and never looked at it does not answer with another call's error either.",
 		Assumptions: []string{"Component.Render writes only to the writer it is given"},
 		Trusted:     []string{"go/types", "x/tools go/packages, go/cfg"},
 		Run:         runC11,
